@@ -256,8 +256,10 @@ pub fn run(ctx: &Ctx) {
                 let (e_priv, payload) = if n % 2 == 0 { (Some(rng.arr32()), Some(rng.arr32())) } else { (None, None) };
                 let (cname, cr) = &crs[n % crs.len()];
                 let dec_ws = &wss[(n / 2) % wss.len()].1;
-                let enc_io = Io::new(rs.clone(), ws.clone());
-                let dec_io = Io::new(cr.clone(), dec_ws.clone());
+                let mut enc_io = Io::new(rs.clone(), ws.clone());
+                let mut dec_io = Io::new(cr.clone(), dec_ws.clone());
+                enc_io.vectored = n % 2 == 1;
+                dec_io.vectored = n % 3 == 1;
                 let ok = prod_roundtrip(ctx, &k, &pt, &enc_io, &dec_io, e_priv, payload, "production");
                 if ok && (len == 0 || len >= 65535) {
                     ctx.distinct(&format!("prod|{}|{}|{}|{}|{}", len, rname, wname, cname, e_priv.is_some()));
